@@ -88,9 +88,10 @@ def tool_parse_main(data: bytes, d, fmt="yaml", hierarchy=False):
     return out
 
 
-def cli(args, cwd, timeout=120):
+def cli(args, cwd, timeout=120, extra_env=None):
     """Real CLI subprocess: python -m suit_generator.cli ... with cwd=scratch and a private log file."""
     env = dict(os.environ)
+    env.update(extra_env or {})
     env["PYTHONPATH"] = core.REPO + os.pathsep + env.get("PYTHONPATH", "")
     cmd = [sys.executable, os.path.join(core.REPO, "suit_generator", "cli.py"), "--log-filename", os.path.join(cwd, "cli.log")] + list(args)
     p = subprocess.run(cmd, cwd=cwd, env=env, capture_output=True, text=True, timeout=timeout)
